@@ -538,8 +538,10 @@ def run_one(tree, binding, ctxname):
             # mechanism fields: which comparison operators did the reader absorb, and are the missing rows exactly
             # rows whose `!=`-compared column is null?
             try:
-                flt = next((x.operand("filters") for x in rp if x.operand("filters")), None) or []
-                tuples = [t for conj in flt for t in (conj if isinstance(conj, (list, tuple)) and conj and isinstance(conj[0], (list, tuple)) else [conj])]
+                tuples = []
+                for x_ in rp:  # every plan variant that may have run (fuse on/off, re-optimized, compute path)
+                    for conj in (x_.operand("filters") or []):
+                        tuples += list(conj) if isinstance(conj, (list, tuple)) and conj and isinstance(conj[0], (list, tuple)) else [conj]
                 ne_cols = sorted({t[0] for t in tuples if t[1] == "!="})
                 d["reader_filter_ops"] = sorted({t[1] for t in tuples})
                 missing = sorted(set(exp["rid"].tolist()) - set(got["rid"].tolist()))
